@@ -557,7 +557,7 @@ def build_gattr(g, name="x"):
         dt = DataType.ANY_TYPE if g["any_obj"] else DataType.STRING
         tag = Tag.ELEMENT
     a = Attr(name=name, tag=tag, types=[AttrType(qname=str(dt), native=True)], default=g["default"], fixed=g["fixed"],
-             restrictions=Restrictions(min_occurs=g["min"], max_occurs=g["max"]))
+             restrictions=Restrictions(min_occurs=g["min"], max_occurs=g["max"], tokens=True if g.get("tokens") else None))
     if g.get("xsi_type"):
         a.name, a.namespace = "type", Namespace.XSI.uri
     return a
@@ -585,7 +585,11 @@ def dataclass_field_shape(f):
     import dataclasses
 
     if f.default_factory is not dataclasses.MISSING:
-        d = "list" if f.default_factory in (list, tuple) else "factory"
+        if f.default_factory in (list, tuple):
+            d = "list"
+        else:
+            v = f.default_factory()  # the default of a tokens field: `lambda: [t1, t2]` — the declared tokens
+            d = [" ".join(x if isinstance(x, str) else repr(x) for x in v)] if isinstance(v, (list, tuple)) else "factory"
     elif f.default is dataclasses.MISSING:
         d = "MISSING"
     elif f.default is None:
@@ -966,13 +970,16 @@ def dtd_attlist(decls):
     return "<!ATTLIST r " + "  ".join(parts) + ">\n" if parts else ""
 
 
+DTD_LIST_TYPES = ("NMTOKENS", "IDREFS", "ENTITIES")  # attribute types whose value is a list of tokens
+
+
 def gen_dtd_attr_decl(rng, grammatical=True):
     k = rng.choice(["required", "implied", "fixed", "none"])
-    tp = rng.choice(["CDATA", "CDATA", "NMTOKEN", "enum", "enum"])
+    tp = rng.choice(["CDATA", "CDATA", "NMTOKEN", "enum", "enum"] + list(DTD_LIST_TYPES))
     values = rng.choice(ENUM_SETS) if tp == "enum" else None
     v = None
     if k in ("fixed", "none") or (not grammatical and rng.random() < 0.3):
-        v = rng.choice(values) if tp == "enum" else rng.choice(["D", "x", "v1"])
+        v = rng.choice(values) if tp == "enum" else rng.choice(["D", "x", "v1"] + (["t1 t2", "a b c"] * 2 if tp in DTD_LIST_TYPES else []))
     if not grammatical and rng.random() < 0.2:
         v = None
     d = {"default": k, "value": v, "type": tp}
@@ -1145,6 +1152,8 @@ def real_read_attr(sources, givens, doc_of, entry=None):
             v = getattr(obj, fields["d0"]) if "d0" in fields else None
             if isinstance(v, enum.Enum):
                 v = v.value
+            if isinstance(v, (list, tuple)):  # a tokens attribute: the tokens; no token = no attribute
+                v = " ".join(x.value if isinstance(x, enum.Enum) else x for x in v) if v else None
             out.append([v])
         return out
     finally:
